@@ -30,6 +30,8 @@ var (
 	opBytes     = []byte("ab")
 	opErr       = errors.New("opaque error value")
 	opMapAny    = map[interface{}]interface{}{1: 2}
+	opMapList   = []map[string]interface{}{{"a": 1.0}, {"a": 2.0, "b": "x"}}
+	opIface     = interface{}(map[string]interface{}{"a": 1.0})
 )
 
 // OpaqueTags lists the catalogue.
@@ -37,7 +39,7 @@ var OpaqueTags = []string{
 	"struct{}", "struct", "*struct", "nil*struct", "map[string]int", "map[string]string",
 	"namedMap", "[]int", "[]string", "namedSlice", "[2]int", "int", "int64", "uint8",
 	"float32", "complex128", "func()", "chan int", "[]byte", "error", "time.Duration",
-	"map[interface{}]interface{}",
+	"map[interface{}]interface{}", "[]map[string]interface{}", "*interface{}", "nil*interface{}", "nilmap", "nilslice",
 }
 
 // OpaqueValue builds the Go value for a tag.
@@ -87,6 +89,16 @@ func OpaqueValue(tag string) interface{} {
 		return time.Duration(1)
 	case "map[interface{}]interface{}":
 		return opMapAny
+	case "[]map[string]interface{}":
+		return opMapList
+	case "*interface{}":
+		return &opIface
+	case "nil*interface{}":
+		return (*interface{})(nil)
+	case "nilmap":
+		return map[string]interface{}(nil) // a JSON-typed container that happens to be nil
+	case "nilslice":
+		return []interface{}(nil)
 	}
 	panic("harness bug: unknown opaque tag " + tag)
 }
